@@ -16,10 +16,16 @@ TRUSTED_BASE = [
 ASSUMPTIONS = ["theorems are about the model; scope: proportional units (offset scales are C09); table values themselves are C05"]
 
 
+_SINGLE = {}
+
+
 def read_units(V, texts):
     """What each unit text denotes: single words as the implementation reads them, the structure (* / ^n) read independently."""
     wl = sorted({w for t in texts for w in unitlib.words_of(t)})
-    single = dict(zip(wl, unitlib.impl_units(wl)))
+    new = [w for w in wl if w not in _SINGLE]              # single words are read once per run (one harness process per batch)
+    if new:
+        _SINGLE.update(zip(new, unitlib.impl_units(new)))
+    single = {w: _SINGLE[w] for w in wl}
     out = {}
     for t in texts:
         sn = unitlib.struct_names(V, t, single)
